@@ -3,6 +3,8 @@
 // linked in and register themselves.
 #include "c06.hpp"
 #include "c10.hpp"
+#include "c04.hpp"
+#include "c03.hpp"
 
 namespace sbepp
 {
@@ -27,6 +29,9 @@ sim::Plan gen_plan(std::uint64_t seed, const std::string& prop, const std::strin
 {
     if(prop == "C06") return wire::gen_c06(seed, tier);
     if(prop == "C10") return wire::gen_c10_wire(seed, tier);
+    if(prop == "C04") return wire::gen_c04(seed, tier);
+    if(prop == "C19") return wire::gen_c19(seed, tier);
+    if(prop == "C03") return wire::gen_c03(seed, tier);
     return sim::Plan{};
 }
 
@@ -36,6 +41,9 @@ sim::Result exec_plan(const sim::Plan& plan)
     const std::string prop = plan.get("property");
     if(prop == "C06") return wire::exec_c06(plan);
     if(prop == "C10") return wire::exec_c10(plan);
+    if(prop == "C04") return wire::exec_c04(plan);
+    if(prop == "C19") return wire::exec_c19(plan);
+    if(prop == "C03") return wire::exec_c03(plan);
     sim::Result r;
     r.signature = "HARNESS:unknown-property";
     return r;
@@ -45,6 +53,7 @@ sim::Plan refine(const sim::Plan& p, const sim::Result& r)
 {
     if(p.get("property") == "C06") return wire::refine_c06(p, r);
     if(p.get("property") == "C10") return wire::refine_c10(p, r);
+    if(p.get("property") == "C19") return wire::refine_c19(p, r);
     return p;
 }
 
